@@ -11,6 +11,7 @@ import argparse
 import atexit
 import base64
 import contextlib
+import hashlib
 import io
 import json
 import os
@@ -25,12 +26,16 @@ from ..xplore import HarnessError, Stats
 from ..env import Rng, patched
 from ..att import layout as L, sgx as S
 from ..simdev.base import World
-from ..simdev.attdev import (LedgerFactory, GenuineLedger, SgxPlatform, GenuineSgx)
+from ..simdev.attdev import (LedgerFactory, GenuineLedger, SgxPlatform, GenuineSgx,
+                              ledger_seed)
+from ..att import k1
 
 PIN = "abcd1234"
 UI_PAGE_SIZES = {1: 120, 2: 79, 3: 40, 4: 28}       # 109-byte UI message -> 1..4 pages
 AUTH_LENS = [0, 1, 32, 1000]
 CHAIN_LENS = [2, 3]
+# boundary values for the bytes that directly follow a textual header / end a message
+EDGE_BYTES = [0x30, 0x39, 0x3a, 0x0a, 0x00, 0xff]
 
 # field -> oracle class.  must-fail: a byte the device signed / committed to by a signed hash,
 # a signature, a key of the chain, TBS or signature of a certificate, the root of trust.
@@ -191,6 +196,8 @@ class C15(Check):
         self.platforms = {(a, c): SgxPlatform(Rng("c15-sgx-%d-%d" % (a, c)), a, c)
                           for a in AUTH_LENS for c in CHAIN_LENS}
         self.ud = Rng("c15-ud").nz_bytes(32)
+        # wallets (last key varied) whose public-keys hash starts / ends with each boundary byte
+        self.salts = {lg: self.find_salts(f) for lg, f in self.factories.items()}
         base = "/dev/shm" if os.path.isdir("/dev/shm") else None
         self.dir = tempfile.mkdtemp(prefix="verif-c15-", dir=base)
         owner = os.getpid()
@@ -199,6 +206,34 @@ class C15(Check):
             if os.getpid() == owner:
                 shutil.rmtree(d, ignore_errors=True)
         atexit.register(cleanup)
+
+    def find_salts(self, fac):
+        seed = ledger_seed(fac, Rng("c15-seed").bytes(32))
+        h = hashlib.sha256()
+        for p in L.PATHS[:-1]:
+            h.update(fac.key(b"wallet", seed + L.path_binary(p)).pub65)
+        need = {(pos, b) for pos in ("first", "last") for b in EDGE_BYTES}
+        out = {"base": b""}
+        n = 0
+        while need:
+            n += 1
+            if n > 20000:
+                raise HarnessError("wallet search does not terminate")
+            salt = n.to_bytes(4, "big")
+            d = int.from_bytes(hashlib.sha256(b"wallet" + fac.secret + seed
+                                              + L.path_binary(L.PATHS[-1]) + salt).digest(), "big")
+            h2 = h.copy()
+            h2.update(k1.Key(d % (k1.N - 1) + 1).pub65)
+            dg = h2.digest()
+            for key in (("first", dg[0]), ("last", dg[-1])):
+                if key in need:
+                    need.discard(key)
+                    out["kh-%s-%02x" % key] = salt
+        return out
+
+    def ud_for(self, cfg):
+        b = cfg.get("ud")
+        return self.ud if b is None else bytes([b]) + self.ud[1:-1] + bytes([b])
 
     def bounds(self):
         return {"ledger_devices": "UI pages 1..4 x {legacy, current} signer framing",
@@ -218,6 +253,8 @@ class C15(Check):
             for legacy in (False, True):
                 cfg = {"pages": pages, "legacy": legacy}
                 cs.append({"kind": "ledger", "cfg": cfg, "field": None})
+                for b in EDGE_BYTES:
+                    cs.append({"kind": "ledger-edges", "cfg": cfg, "byte": b})
                 for f, _ in LEDGER_FIELDS:
                     if legacy and f == "signer.env":
                         continue
@@ -228,8 +265,7 @@ class C15(Check):
             for c in CHAIN_LENS:
                 cfg = {"auth": a, "chain": c}
                 cs.append({"kind": "sgx", "cfg": cfg, "field": None})
-                if a == 0:
-                    continue          # the unaltered run is what matters there (see D8)
+                cs.append({"kind": "sgx-edges", "cfg": cfg})
                 for f, _ in SGX_ENV_FIELDS:
                     cs.append({"kind": "sgx", "cfg": cfg, "field": f})
                 for i in range(c):
@@ -265,6 +301,23 @@ class C15(Check):
             self.execute(case["plat"], case["cfg"], case.get("alter"), case.get("cls", "must-fail"),
                          stats, vs)
             return vs
+        if k == "ledger-edges":
+            # genuine devices whose UD value / iteration / keys hash start or end with a boundary
+            # byte (the bytes next to the textual headers and at the end of the messages)
+            for keys in sorted(self.salts[bool(case["cfg"]["legacy"])]):
+                cfg = dict(case["cfg"], ud=case["byte"], keys=keys)
+                self.execute("ledger", cfg, None, "genuine", stats, vs)
+            return vs
+        if k == "sgx-edges":
+            for b in EDGE_BYTES:
+                self.execute("sgx", dict(case["cfg"], ud=b), None, "genuine", stats, vs)
+            # two genuine devices one after the other in one process, same file locations
+            for other in sorted(self.platforms):
+                if other != (case["cfg"]["auth"], case["cfg"]["chain"]):
+                    self.execute("sgx", {"auth": other[0], "chain": other[1]}, None, "genuine",
+                                 stats, vs)
+                    self.execute("sgx", case["cfg"], None, "genuine", stats, vs)
+            return vs
         cfg, field = case["cfg"], case["field"]
         if field is None:
             self.execute(k, cfg, None, "genuine", stats, vs)
@@ -294,9 +347,11 @@ class C15(Check):
                              "index": i, "mask": mask}
                     self.execute(k, cfg, alter, cls, stats, vs)
             return vs
-        # sgx
+        # sgx: the alterations follow a successful run on the same file locations
+        if self.execute(k, cfg, None, "genuine", Stats(), []) is None:
+            return vs
         plat = self.platforms[(cfg["auth"], cfg["chain"])]
-        f = plat.enclave.fields(plat.message(self.ud))
+        f = plat.enclave.fields(plat.message(self.ud_for(cfg)))
         if field == "pages":
             counts = {"msg": (len(f["custom_message"]) + 78) // 79,
                       "env": (len(S.build_envelope(f)) + 78) // 79}
@@ -390,7 +445,8 @@ class C15(Check):
         if cls == "genuine" and r["stage"] is not None:
             vs.append(Violation("C15", "C15:%s:genuine-refused:%s:%s:%s%s"
                                 % (plat, r["stage"], r.get("frame"), r["exc"],
-                                   ":qe-auth-data-empty" if cfg.get("auth") == 0 else ""),
+                                   ":qe-auth-data-empty" if cfg.get("auth") == 0
+                                   and r["stage"] == "attestation" else ""),
                                 case, None,
                                 {"failed_at": r["stage"], "exception": r["exc"], "text": r["text"],
                                  "where": r.get("frame")},
@@ -445,7 +501,11 @@ class C15(Check):
     def run_ledger(self, cfg, alter):
         m = self.m
         fac = self.factories[bool(cfg["legacy"])]
-        dev = GenuineLedger(fac, UI_PAGE_SIZES[cfg["pages"]], check_host=alter is None)
+        ud = self.ud_for(cfg)
+        it = None if cfg.get("ud") is None else (fac.signer_iteration & 0xff00) | cfg["ud"]
+        dev = GenuineLedger(fac, UI_PAGE_SIZES[cfg["pages"]], check_host=alter is None,
+                            wallet_salt=self.salts[bool(cfg["legacy"])][cfg.get("keys", "base")],
+                            signer_iteration=it)
         if alter is not None and alter["kind"] != "root":
             dev.alter = alter
         world = World(dev)
@@ -469,7 +529,7 @@ class C15(Check):
             dev.power_cycle()
             self.stage(r, "attestation", lambda: m.LA.do_attestation(
                 ns("ledger", operation="attestation", pin=PIN, output_file_path=att,
-                   attestation_certificate_file_path=setup, attestation_ud_source=self.ud.hex())))
+                   attestation_certificate_file_path=setup, attestation_ud_source=ud.hex())))
             self.stage(r, "pubkeys", lambda: m.PK.do_get_pubkeys(
                 ns("ledger", operation="pubkeys", no_unlock=True, output_file_path=pktxt)))
             self.stage(r, "verify", lambda: m.VL.do_verify_attestation(
@@ -487,12 +547,12 @@ class C15(Check):
         self.fixed_point(setup, mism, "setup-file")
         els = {e["name"]: e for e in doc.get("elements", [])}
         endo = dev.endorsement
-        ui_msg = L.ui_message(L.UI_HEADER, self.ud, dev.wallet(L.UI_PATH).pub33, fac.signer_hash,
-                              fac.signer_iteration)
+        ui_msg = L.ui_message(L.UI_HEADER, ud, dev.wallet(L.UI_PATH).pub33, fac.signer_hash,
+                              dev.signer_iteration)
         if fac.legacy_signer:
             sg_msg = L.legacy_message(L.LEGACY_HEADER, dev.keys_hash())
         else:
-            sg_msg = L.powhsm_message(L.POWHSM_HEADER, b"led", self.ud, dev.keys_hash(),
+            sg_msg = L.powhsm_message(L.POWHSM_HEADER, b"led", ud, dev.keys_hash(),
                                       fac.best_block, fac.last_tx_hash[:8], 0)
         want = {
             ("device", "message"): (bytes([2]) + fac.cert_header + fac.device.pub65).hex(),
@@ -521,16 +581,16 @@ class C15(Check):
         sec = L.parse_output(r["stdout"])
         ui = L.section(sec, "UI verified")
         sg = L.section(sec, "Signer verified")
-        wu = {"UD value": self.ud.hex(),
+        wu = {"UD value": ud.hex(),
               "Derived public key (%s)" % L.UI_PATH: dev.wallet(L.UI_PATH).pub33.hex(),
               "Authorized signer hash": fac.signer_hash.hex(),
-              "Authorized signer iteration": str(fac.signer_iteration),
+              "Authorized signer iteration": str(dev.signer_iteration),
               "Installed UI hash": fac.ui_hash.hex(), "Installed UI version": "5.4"}
         ws = {p: dev.wallet(p).pub33.hex() for p in L.PATHS}
         ws.update({"Hash": dev.keys_hash().hex(), "Installed Signer hash": fac.signer_hash.hex(),
                    "Installed Signer version": "5.3" if fac.legacy_signer else "5.4"})
         if not fac.legacy_signer:
-            ws.update({"Platform": "led", "UD value": self.ud.hex(),
+            ws.update({"Platform": "led", "UD value": ud.hex(),
                        "Best block": fac.best_block.hex(),
                        "Last transaction signed": fac.last_tx_hash[:8].hex(), "Timestamp": "0"})
         for title, s, w in (("ui", ui, wu), ("signer", sg, ws)):
@@ -566,6 +626,7 @@ class C15(Check):
     def run_sgx(self, cfg, alter):
         m = self.m
         plat = self.platforms[(cfg["auth"], cfg["chain"])]
+        ud = self.ud_for(cfg)
         dev = GenuineSgx(plat)
         if alter is not None and alter["kind"] != "root-der":
             dev.alter = alter
@@ -585,7 +646,7 @@ class C15(Check):
                      (m.AU, "requests", _NoNetwork()), (m.CV2, "datetime", S.FixedClock)):
             self.stage(r, "attestation", lambda: m.SA.do_attestation(
                 ns("sgx", operation="attestation", pin=plat.pin.decode(), output_file_path=att,
-                   attestation_ud_source=self.ud.hex())))
+                   attestation_ud_source=ud.hex())))
             self.stage(r, "pubkeys", lambda: m.PK.do_get_pubkeys(
                 ns("sgx", operation="pubkeys", no_unlock=True, output_file_path=pktxt)))
             self.stage(r, "verify", lambda: m.VS.do_verify_attestation(
@@ -600,7 +661,7 @@ class C15(Check):
         mism = r["mismatches"]
         doc = self.fixed_point(att, mism, "attestation-file")
         els = {e["name"]: e for e in doc.get("elements", [])}
-        msg = plat.message(self.ud)
+        msg = plat.message(ud)
         f = plat.enclave.fields(msg)
         want = {
             ("quote", "type"): "sgx_quote", ("quote", "message"): f["quote"].hex(),
@@ -652,7 +713,7 @@ class C15(Check):
         w.update({"Hash": plat.keys_hash.hex(),
                   "Installed powHSM MRENCLAVE": plat.enclave.mrenclave.hex(),
                   "Installed powHSM MRSIGNER": plat.enclave.mrsigner.hex(),
-                  "Installed powHSM version": "5.4", "Platform": "sgx", "UD value": self.ud.hex(),
+                  "Installed powHSM version": "5.4", "Platform": "sgx", "UD value": ud.hex(),
                   "Best block": plat.best_block.hex(),
                   "Last transaction signed": plat.last_tx_hash[:8].hex(), "Timestamp": "0"})
         if s is None:
